@@ -1,12 +1,13 @@
 from pyvc import runner
-from contracts import signing, hashdata, sigalgs, subpacket_values, packets, subpackets
+from contracts import signing, hashdata, sigalgs, subpacket_values, packets, subpackets, messages
 
 PID = 'C02'
 PENDING_TRIAGE = False
 
 
 def items():
-    return signing.scenarios() + [s for s in subpacket_values.scenarios() + packets.scenarios() + subpackets.scenarios() if PID in getattr(s, 'props', ())] + [s for s in hashdata.scenarios() + sigalgs.scenarios() if PID in s.props]
+    return signing.scenarios() + [s for s in subpacket_values.scenarios() + packets.scenarios() + subpackets.scenarios() if PID in getattr(s, 'props', ())] + [s for s in hashdata.scenarios() + sigalgs.scenarios() if PID in s.props] + \
+        [s for s in messages.scenarios() if PID in s.props]      # how a cleartext-signed message is written out ('after export ... it still verifies')
 
 
 def run(tier='quick', seed=0, only=None):
